@@ -161,7 +161,7 @@ PROPS = {
                         "the width theorems are about canonical styled text (what servitor's own style layer produces); hostile strings are covered by the correspondence check only"],
     },
     "C17": {
-        "lean_modules": ["Props.Gen17", "Props.Facts17"],
+        "lean_modules": ["Props.Gen17", "Props.Facts17", "Props.GenT17"],
         "groups": [{"name": "C17", "quick": 8000, "thorough": 300000}],
         "rule": "JSON documents with null/bool/number/string/array/object under keys k, m, z (numbers from an edge pool around 0, +-1, 2^53, 2^63, 2^64, subnormals, huge exponents, random bit patterns and integers around powers of two; strings with control characters, timestamps, URLs, media types) x every accessor x present/absent keys; "
                 "non-trivial = the key is present in the document; distinct by op content",
@@ -171,7 +171,7 @@ PROPS = {
         "assumptions": ["JSON cannot produce NaN or infinities (encoding/json rejects out-of-range literals)"],
     },
     "C18": {
-        "lean_modules": ["Props.Gen18"],
+        "lean_modules": ["Props.Gen18", "Props.GenT18"],
         "correspondence_is_failure": {"history": True, "feed": True},
         "groups": [{"name": "C18", "quick": 4000, "thorough": 100000},
                    {"name": "C18x", "quick": 6, "thorough": 9, "workers": 1}],
@@ -212,7 +212,7 @@ PROPS = {
         "assumptions": ["width >= 1 for the width clause"],
     },
     "C16": {
-        "lean_modules": ["Props.C16b", "Props.Gen16"],
+        "lean_modules": ["Props.C16b", "Props.Gen16", "Props.GenT16"],
         "groups": [{"name": "C16", "quick": 6000, "thorough": 200000}, {"name": "C07", "quick": 160, "thorough": 4000, "workers": 16},
                    {"name": "C16x", "quick": 0, "thorough": 7, "workers": 1}],
         "rule": "prefix/centered/suffix of 0..8 styled lines each x heights 1..16; non-trivial = height exceeds the centred text (buffers are computed); distinct by op content",
@@ -310,13 +310,13 @@ MANIFEST_TEXT = {
         "technique": "Lean 4 proof (induction over the wrap state machine) + differential correspondence",
     },
     "C17": {
-        "text": "Lean theorems for all JSON values, keys and accessors: each accessor returns exactly absent (missing/null/empty), wrong (other type/unparseable/out of range) or the faithful value; GetNumber returns n iff the double's exact value (computed from its bit pattern with integer arithmetic) is the natural number n < 2^64. Tied to object.go twice: GetAny, GetString, GetObject, GetList, GetTime, GetURL, GetMediaType and the getPrimitive instances they use are translated to Lean on every run (extract/go2lean3.go -> Generated/GoCode.lean) and proved equal to the model's accessors (Props/Gen17.lean); and (all accessors, GetNumber and GetMarkup included, and mime.go) by differential correspondence on values decoded by the real encoding/json; number exactness, empty-means-absent and sanitisation are also checked on every implementation output.",
+        "text": "Lean theorems for all JSON values, keys and accessors: each accessor returns exactly absent (missing/null/empty), wrong (other type/unparseable/out of range) or the faithful value; GetNumber returns n iff the double's exact value (computed from its bit pattern with integer arithmetic) is the natural number n < 2^64. Tied to object.go twice: GetAny, GetString, GetObject, GetList, GetTime, GetURL, GetMediaType and the getPrimitive instances they use are translated to Lean on every run (extract/go2lean3.go -> Generated/GoObject.lean) and proved equal to the model's accessors (Props/Gen17.lean); and (all accessors, GetNumber and GetMarkup included, and mime.go) by differential correspondence on values decoded by the real encoding/json; number exactness, empty-means-absent and sanitisation are also checked on every implementation output.",
         "design_ref": "DESIGN.md §5 C17",
         "note": "Trusted: Lean kernel; correspondence check (testing); encoding/json, time.Parse, url.Parse as parameters/oracle tables.",
         "technique": "Lean 4 proof (case analysis over a JSON datatype, bit-exact IEEE-754 model) over a model proved equal to the Lean translation of the accessors regenerated on every run + differential correspondence",
     },
     "C18": {
-        "text": "Refinement theorems in Lean: every history op sequence keeps the invariant, never panics and denotes what a zipper computes; every feed operation preserves the representation of a two-sided sequence, lookups/containment/parent-child agree with positions, append/prepend never move items, moves stay in bounds. Tied to history.go/feed.go twice: both files are translated to Lean on every run (extract/go2lean.go -> Generated/GoCode.lean) and every method of the generated code is proved equal to the model's (Props/Gen18.lean); and by differential correspondence after every step, exhaustive up to a length bound.",
+        "text": "Refinement theorems in Lean: every history op sequence keeps the invariant, never panics and denotes what a zipper computes; every feed operation preserves the representation of a two-sided sequence, lookups/containment/parent-child agree with positions, append/prepend never move items, moves stay in bounds. Tied to history.go/feed.go twice: both files are translated to Lean on every run (extract/go2lean.go -> Generated/GoHistory.lean, GoFeed.lean) and every method of the generated code is proved equal to the model's (Props/Gen18.lean); and by differential correspondence after every step, exhaustive up to a length bound.",
         "design_ref": "DESIGN.md §5 C18",
         "note": "Trusted: Lean kernel; correspondence check (testing; exhaustive to length 7 quick / 9 thorough); slice aliasing and Go map semantics as modelled.",
         "technique": "Lean 4 proof (refinement to zipper / two-sided sequence by induction over operations) over a model proved equal to the Lean translation of the Go source regenerated on every run + differential correspondence",
@@ -340,7 +340,7 @@ MANIFEST_TEXT = {
         "technique": "Lean 4 proof (wrap_width + cache invariant by induction over the width sequence) + differential correspondence",
     },
     "C16": {
-        "text": "Lean theorems for all prefix/centred/suffix texts and all heights >= 1: CenterVertically returns exactly h lines, centred as specified; ReplaceLastLine keeps the height for texts of >= 2 lines; SetLength is newline-free. Tied to ansi.go twice: Height, CenterVertically, ReplaceLastLine, SetLength and Squash are translated to Lean on every run (extract/go2lean2.go -> Generated/GoCode.lean) and proved equal to the model's functions (Props/Gen16.lean); and by differential correspondence; the height predicate is evaluated on every implementation output.",
+        "text": "Lean theorems for all prefix/centred/suffix texts and all heights >= 1: CenterVertically returns exactly h lines, centred as specified; ReplaceLastLine keeps the height for texts of >= 2 lines; SetLength is newline-free. Tied to ansi.go twice: Height, CenterVertically, ReplaceLastLine, SetLength and Squash are translated to Lean on every run (extract/go2lean2.go -> Generated/GoAnsi.lean) and proved equal to the model's functions (Props/Gen16.lean); and by differential correspondence; the height predicate is evaluated on every implementation output.",
         "design_ref": "DESIGN.md §5 C16",
         "note": "Trusted: Lean kernel; correspondence check (testing); strings.Split/Join/Count/Repeat/LastIndex as modelled on character lists.",
         "technique": "Lean 4 proof (list lemmas on split/join) over a model proved equal to the Lean translation of the layout functions regenerated on every run + differential correspondence",
